@@ -35,9 +35,9 @@ CHECKS['C05'] = dict(
     note='property_history_lww covers histories in which the entity itself receives only property updates (others arbitrary); creation / nested updates in the same history compose through the per-step theorems; correspondence is sampled; recording controller via the documented _get_controller/_get_definitions extension points.',
     design='§5 C05')
 CHECKS['C06'] = dict(
-    technique='Lean 4 theorems: Python slice-assignment semantics, leaf operations and descent steps as List.set / dict assignment, frame lemmas + differential play of generated nested-operation sequences against plain list/dict operations',
+    technique='Lean 4 theorems: Python slice-assignment semantics, leaf operations and descent steps as List.set / dict assignment, frame lemmas, and the closed form of the bit-level layout (walk_reach: a written index path of any depth decodes to that path; leaf_encoded; nested_update_decodes: read_and_apply on any written payload = the operation applied at the end of the path) + differential play of generated nested-operation sequences against plain list/dict operations',
     text='C06 theorems give the semantics of every step of a nested update in the model as ordinary list/dict operations (slice with all clamping cases, element set, value-less set, dict field set, descent = List.set/dictSet of the updated child, stop conditions) and that nothing else changes. The model is tied to NestedProperty.read_and_apply by generated op sequences (depth 1..5, all slice pairs) compared after every packet, with the generator applying the same operations to plain Python lists/dicts as oracle.',
-    note='partial: the closed-form bit-level encoder/decoder round trip for whole paths is not a theorem (each field read is covered by C17.get_pending); the payload-length fix (32-bit) is part of the modelled code.',
+    note='nested_update_decodes takes the payload header as any byte string whose bits spell the written fields padded to a byte boundary (a bit-packing function with its own inverse lemma is not defined); subscriber notification (substring key match) is model code exercised by the correspondence; the payload-length fix (32-bit) is part of the modelled code.',
     design='§5 C06')
 CHECKS['C08'] = dict(
     technique='Lean 4 theorems position_spec / player_position_{set,copy,unknown_ignored,zero} / pose_frame / entity_history (updates and positions over whole histories) + differential play of generated position histories + recordings',
